@@ -161,8 +161,7 @@ pub fn check_x(r: &ExecResult, m: u32, two_actions: bool, subs: u32) -> Vec<Find
                 expect_errors[*mw as usize] += 1;
             }
         }
-        let effect_done = c1.iter().any(|mw| verdict(r, ai, *mw, HOOK_EFFECT) == Verdict::Done);
-        if !effect_done {
+        {
             // effects: slot 0 and slot 1 (first action), slot 0 (second); the remover, if it was
             // called, removed position 0
             let removed0 = c1.contains(&remover);
